@@ -190,6 +190,45 @@ func continuation(cl *qsim.Cluster, variant int, budget int) (bool, specqbft.Rou
 	return false, cl.MaxHonestRound() - r0, log
 }
 
+// roundChangesAccepted inspects the final state of a failed continuation: accepted = every undecided correct operator holds,
+// for its current round, a round-change of every undecided correct operator that is in the same round (they were delivered in
+// time, so a missing one was refused); distinctPrepared = some undecided operator holds a round-change quorum for its round
+// that contains round-changes prepared on two different values.
+func roundChangesAccepted(cl *qsim.Cluster) (accepted, distinctPrepared bool) {
+	var und []*qsim.Node
+	for _, n := range cl.Honest() {
+		if st := n.Inst(); st != nil && !st.Decided {
+			und = append(und, n)
+		}
+	}
+	accepted = true
+	quorum := cl.Cfg.N - cl.F
+	for _, n := range und {
+		st := n.Inst()
+		have := map[spectypes.OperatorID]bool{}
+		roots := map[[32]byte]bool{}
+		if st.RoundChangeContainer != nil {
+			for _, m := range st.RoundChangeContainer.MessagesForRound(st.Round) {
+				for _, s := range m.Signers {
+					have[s] = true
+				}
+				if m.Message.DataRound != 0 {
+					roots[m.Message.Root] = true
+				}
+			}
+		}
+		for _, o := range und {
+			if o.Inst().Round == st.Round && !have[o.ID] {
+				accepted = false
+			}
+		}
+		if len(have) >= quorum && len(roots) >= 2 {
+			distinctPrepared = true
+		}
+	}
+	return accepted, distinctPrepared
+}
+
 func runContinuation(c *evid.Case) {
 	env := c.Data.(*qsim.Env)
 	seed := c.Rng.Int63()
@@ -235,7 +274,13 @@ func runContinuation(c *evid.Case) {
 		}
 		if !okAny {
 			sig := fmt.Sprintf("N=%d/prepared-values=%d", cfg.N, len(pv))
-			if len(pv) >= 2 {
+			// the three classes below are known mechanisms (section 19); a failure is filed under one of them only if the state at
+			// the end of the first continuation shows that mechanism: the round-changes of the undecided correct operators were
+			// ACCEPTED by each other (so the stall is not caused by refused or missing round-changes)
+			accepted, distinctPrepared := roundChangesAccepted(cl)
+			if !accepted {
+				sig += "/round-changes-of-correct-operators-not-accepted"
+			} else if len(pv) >= 2 && distinctPrepared {
 				sig = "correct-operators-prepared-on-distinct-values"
 			} else if cfg.RunnerCompaction && decidedAtCut > 0 && undecidedAtCut > cl.F {
 				// more than f operators are undecided (enough for a partial quorum), but the decided ones compact their instance on
